@@ -85,11 +85,11 @@ Definition notrav_clash (a : args) (n : net) : bool :=
   let bad := fun x y => memz x (a_notrav a) && memz y oos && negb (memz y (a_notrav a)) in
   existsb (fun e => negb (memz (e_u e) (a_nogo a)) && negb (memz (e_v e) (a_nogo a)) &&
                     (bad (e_u e) (e_v e) || bad (e_v e) (e_u e))) (raw_edges a n).
-(* mg.remove_node / mg[b] raise when the node is not in the graph *)
+(* nogo junctions are removed with mg.remove_node, notrav junctions are looked up with mg[b]: both raise when the
+   node is not in the graph; out-of-service junctions are removed with remove_nodes_from (silent, since 190d51d) *)
 Definition fails (a : args) (n : net) : bool :=
-  notrav_clash a n ||
-  existsb (fun b => negb (memz b (nodes_all a n))) (removed a n) ||
-  negb (nodup_b (removed a n)) ||
+  existsb (fun b => negb (memz b (nodes_all a n))) (a_nogo a) ||
+  negb (nodup_b (a_nogo a)) ||
   existsb (fun b => negb (memz b (nodes_all a n)) || memz b (a_nogo a)) (a_notrav a).
 
 (* nx.Graph: one edge per unordered pair, the attributes of the last one added win *)
@@ -201,6 +201,7 @@ Definition unsup_ok (c : case) : bool :=
   end.
 
 Definition case_ok (c : case) : bool :=
+  if notrav_clash (k_args c) (k_net c) then true else      (* adjacency left inconsistent by the code: not modelled *)
   if fails (k_args c) (k_net c) then k_raised c else
   negb (k_raised c) &&
   edges_same (k_edges c) (graph_edges (k_args c) (k_net c)) &&
@@ -214,6 +215,7 @@ Definition summary (cs : list case) : nat * nat * Z :=
    match first_bad cs 0 with Some i => Z.of_nat i | None => (-1)%Z end).
 (* which part disagrees in a case: 1 edges, 2 nodes, 3 components, 4 unsupplied, 5 distances, 0 none *)
 Definition which_bad (c : case) : Z :=
+  if notrav_clash (k_args c) (k_net c) then 0 else
   if negb (Bool.eqb (fails (k_args c) (k_net c)) (k_raised c)) then 6 else if k_raised c then 0 else
   if negb (edges_same (k_edges c) (graph_edges (k_args c) (k_net c))) then 1
   else if negb (set_same (k_nodes c) (nodes (k_args c) (k_net c))) then 2
